@@ -173,13 +173,17 @@ static int ls_init(const char *wasm_path, void *(*resolve)(const char *, const c
     return 1;
 }
 
+/* optional embedder answers for imported tables/memories/globals, set by the generated main */
+static void *(*ls_user_resolve)(const char *, const char *);
+static const wr_env *ls_user_env;
+
 /* standard loop for pure functions */
 static int ls_main_pure(int argc, char **argv, const ls_func *funcs, int nfuncs, const ls_inputs *sets, const ls_alpha *alphas) {
     int fi; uint64_t lo = 0, hi = 0x100000000ull; unsigned secs = 600;
     if (argc < 2) { printf("ERROR usage: driver m.wasm [lo hi] [timeout]\n"); return 2; }
     if (argc >= 4) { lo = strtoull(argv[2], NULL, 0); hi = strtoull(argv[3], NULL, 0); }
     if (argc >= 5) secs = (unsigned)atoi(argv[4]);
-    if (!ls_init(argv[1], NULL, NULL)) return 2;
+    if (!ls_init(argv[1], ls_user_resolve, ls_user_env)) return 2;
     alarm(secs);
     for (fi = 0; fi < nfuncs; fi++) {
         const ls_func *f = &funcs[fi]; const ls_inputs *s = &sets[f->inputset]; uint32_t ridx = 0; uint64_t h0 = 0; int varied = 0; uint64_t count = 0;
